@@ -244,7 +244,7 @@ def run_pair(job):
             os.makedirs(pwd)
             ok, plan, _ = checks_plan.greedy_plan(cs, pwd)
             plans[i] = plan or [1, 2, 3]
-        recs = {i: Recorder(os.path.join(wd, "trace%d.ndjson" % i), len(cs_by[i]["hosts"])) for i in cs_by}
+        recs = {i: Recorder(os.path.join(wd, "trace%d.ndjson" % i), len(cs_by[i]["hosts"]), cs=cs_by[i]) for i in cs_by}
         eid = 0
         for sched in scheds:
             live = {}            # slot -> (eid, scn id, env, step counter)
